@@ -239,6 +239,24 @@ struct Run {
         if (walked) { if (!present) changed_after_walk = true; if (t->root != rootb) rootchange_after_walk = true; }
         if (m.size() > maxn) maxn = m.size();
     }
+    // a put whose data pointer lies inside the table's own copy of the value stored under that key
+    void do_put_alias(const std::string &k) {
+        auto it = m.find(k);
+        if (it == m.end() || !it->second.hasval || it->second.val.size() < 2) { do_put(k); return; }
+        Buf kb(k);
+        size_t sz = 0; char *p = (char *)qtreetbl_getobj(t, kb.p, kb.n, &sz, false);
+        if (!p || sz != it->second.val.size()) c.fail(FUNC, "tree:get-missing", "getobj(%s,newmem=false) before an aliasing put returned %s", hexs(k).c_str(), p ? "a wrong size" : "NULL");
+        size_t off = (size_t)s.range(0, (long)sz - 1);
+        std::string nv = it->second.val.substr(off);
+        qtreetbl_obj_t *rootb = t->root;
+        errno = poison;
+        bool ok = qtreetbl_putobj(t, kb.p, kb.n, p + off, sz - off);
+        c.op("putobj(%s, pointer %zu bytes into the stored value of the same key, %zu bytes) [replace]", hexs(k, 12).c_str(), off, sz - off);
+        if (!ok) c.fail(FUNC, "tree:put-failed", "put of key %s with data inside the table's own value buffer returned false (errno=%d)", hexs(k).c_str(), errno);
+        reput++; Entry &e = m.find(k)->second; e.val = nv; e.variants.insert(k);
+        if (walked && t->root != rootb) rootchange_after_walk = true;
+        full_compare("aliasing put");
+    }
     // calls the library documents as refused (EINVAL): they must fail, say so, and change nothing
     void do_refused(const std::string &k) {
         int kind = (int)s.range(0, 5);
@@ -548,10 +566,10 @@ struct Run {
         if (walks && !setcmp) { setcmp = true; qtreetbl_set_compare(t, user_cmp); }   // budgeted comparator needed
         bool nearest = m3 || m4 || c.mode == "C11" || c.mode == "C12";
         // weights: put get remove size min max clear walk nearest bulk fullcompare
-        std::vector<int> w = {30, 18, 24, 3, 4, 4, 1, 0, 0, 0, 2, 2};
+        std::vector<int> w = {30, 18, 24, 3, 4, 4, 1, 0, 0, 0, 2, 2, 2};
         if (m2) { w[9] = 2; w[1] = 10; }
-        if (m3) { w = {14, 3, 10, 1, 1, 1, 1, 16, 5, 0, 1, 1}; }
-        if (m4) { w = {14, 3, 10, 1, 1, 1, 1, 6, 22, 0, 1, 1}; }
+        if (m3) { w = {14, 3, 10, 1, 1, 1, 1, 16, 5, 0, 1, 1, 1}; }
+        if (m4) { w = {14, 3, 10, 1, 1, 1, 1, 6, 22, 0, 1, 1, 1}; }
         if (walks && !m3 && !m4) { w[7] = 6; w[8] = 6; w[9] = 1; }
         (void)nearest; (void)m1;
         int maxops = c.tier ? 5000 : 600;
@@ -571,6 +589,7 @@ struct Run {
                 case 8: do_nearest(); what = "find_nearest"; break;
                 case 9: bulk_phase(); what = "bulk"; break;
                 case 11: do_refused(universe[s.range(0, (long)U - 1)]); what = "refused call"; break;
+                case 12: do_put_alias(universe[s.range(0, (long)U - 1)]); what = "aliasing put"; break;
                 default: c.op("compare-all"); full_compare("full comparison"); what = "compare";
             }
             check_size(what);
